@@ -235,6 +235,14 @@ def run(tier, seed):
             p = pts[j % len(pts)]
             add("jac", e, [{"name": "x", "vec": True, "vals": [list(q) for q in p]}])
             add("jac", {"k": "cat", "a": {"k": "sum", "a": e}, "b": {"k": "idx", "a": e, "i": 0}}, [{"name": "x", "vec": True, "vals": [list(q) for q in p]}])
+    # a matrix point (2 x 2), given as a literal and as the transpose of a literal (not contiguous in memory); the function sees
+    # its elements through ,/x
+    xv = pv("x")
+    MATS = [[(1, 1), (2, 1), (3, 1), (4, 1)], [(1, 2), (3, 2), (-2, 1), (1, 4)]]
+    for e in [{"k": "sum", "a": bn("mul", xv, xv)}, {"k": "sum", "a": {"k": "pow", "a": xv, "e": 3}}, bn("mul", {"k": "idx", "a": xv, "i": 1}, {"k": "idx", "a": xv, "i": 2}),
+              {"k": "sum", "a": bn("div", xv, c(2))}, bn("sub", {"k": "sum", "a": bn("mul", xv, c(3, 2))}, {"k": "pow", "a": {"k": "idx", "a": xv, "i": 3}, "e": 2})]:
+        for m in MATS:
+            add("grad-matrix", e, [{"name": "x", "vec": True, "vals": [list(q) for q in m]}])
     # scalar parameter
     sx = ps("x")
     for e in [bn("mul", sx, sx), {"k": "pow", "a": sx, "e": 3}, {"k": "pow", "a": sx, "e": -1}, bn("div", c(1), bn("add", sx, c(5))),
@@ -309,6 +317,16 @@ def run(tier, seed):
                 progs.append(("f:>p", f"f::{{{body}}};f:>{P}", P, e0))
                 progs.append(("p∇f", f"f::{{{body}}};{P}∇f", P, e0))
                 progs.append(("sym∇f", f"f::{{{body}}};pt::{P};pt∇f", P, e0))
+        elif x["kind"] == "grad-matrix":
+            body = render(x["ast"], {"x": "(,/x)"})
+            v = [repr(float(Fraction(*q))) for q in params[0]["vals"]]
+            M = f"[[{v[0]} {v[1]}] [{v[2]} {v[3]}]]"
+            Mt = f"(+[[{v[0]} {v[2]}] [{v[1]} {v[3]}]])"
+            for tag, P in (("literal matrix", M), ("transposed matrix", Mt)):
+                progs.append((f"f:>p ({tag})", f"f::{{{body}}};f:>{P}", P, exp[0]))
+                progs.append((f"p∇f ({tag})", f"f::{{{body}}};{P}∇f", P, exp[0]))
+            lbody = render(x["ast"], {"x": "(,/W)"})
+            progs.append(("loss:>[W] (transposed matrix)", f"W::{Mt};loss::{{{lbody}}};*loss:>[W]", Mt, exp[0]))
         elif x["kind"] == "alias-grad":
             body = render(x["ast"], {"x": "x", "a": "a"})
             P = point_src(params[0]["vals"], False)
@@ -471,7 +489,7 @@ def err_over_fscale(got, want, multi, ex):
 
 def matcher(f, case):
     m = f.get("match", {})
-    if "forms" in m and case["form"] not in m["forms"]:
+    if "forms" in m and case["form"].split(" (")[0] not in m["forms"]:
         return False
     if "backends" in m and case["backend"] not in m["backends"]:
         return False
